@@ -455,6 +455,8 @@ func parseKeyAux(family, key string) map[string]string {
 		if len(f) == 3 {
 			a["bridged"], a["op"], a["name"] = f[0], f[1], f[2]
 		}
+	case family == "statements":
+		a["src"] = key
 	case family == "deep-source":
 		if len(f) == 4 {
 			a["group"], a["construct"], a["depth"], a["closed"], a["route"] = f[0], f[0], f[1], f[2], f[3]
